@@ -145,6 +145,13 @@ def hazard_rule(ctx, prog, chk):
         if f.unit.startswith("crypto_stream/") and f.param_index("c") is not None and f.param_index("m") is not None and \
                 not any(f.name == n and u in f.unit for n, u in listed):
             cores.append((f.name, f.unit, "c", "m"))
+    # AEAD functions: decryption reads the ciphertext (MAC) and writes the message, encryption the other way round
+    for f in sorted(prog.functions(), key=lambda f: (f.unit, f.name)):
+        if f.unit.startswith("crypto_aead/") and f.param_index("c") is not None and f.param_index("m") is not None and \
+                f.params[f.param_index("c")]["ty"] == "i8*" and f.params[f.param_index("m")]["ty"] == "i8*" and \
+                not any(f.name == n and u in f.unit for n, u, _d, _s in cores):
+            dec = f.param_index("m") < f.param_index("c")
+            cores.append((f.name, f.unit, "m" if dec else "c", "c" if dec else "m"))
     for name, usub, dname, sname_ in cores:
       for fn in [f for f in prog.functions() if f.name == name and usub in f.unit and not f.decl]:
           dst, src = fn.param_index(dname), fn.param_index(sname_)
